@@ -844,3 +844,44 @@ fn test_process_reference_after_completion() {
 fn test_nilary_spawn_ignores_chained_value() {
     quiver().evaluate("p = 5 @{ 99 }, !p").expect("99");
 }
+
+// A select that has completed no longer awaits its process sources: a source that fails
+// afterwards must not take the selecting process down with it.
+
+#[test]
+fn test_failure_after_select_timed_out_is_not_propagated() {
+    quiver()
+        .evaluate(
+            r#"
+            p = @{ !'int, [1, 0] __integer_divide__ },
+            ! [p, 10] =a,
+            1 p,
+            ! [50] =b,
+            42
+            "#,
+        )
+        .expect("42");
+}
+
+#[test]
+fn test_failure_after_select_received_is_not_propagated() {
+    quiver()
+        .evaluate(
+            r#"
+            p = @{ !'int, [1, 0] __integer_divide__ },
+            &. =me, 7 me,
+            ! [p, #'int] =a,
+            1 p,
+            ! [50] =b,
+            a
+            "#,
+        )
+        .expect("7");
+}
+
+#[test]
+fn test_await_same_process_twice() {
+    quiver()
+        .evaluate("p = @{ 42 }, !p =a, !p =b, [a, b]")
+        .expect("[42, 42]");
+}
